@@ -14,6 +14,8 @@ for d in sorted(glob.glob('/verif/seeded/C*-*'), key=lambda p: (p.split('/')[-1]
     note = det.get('note', '')
     if note.startswith('MISSED'):
         caught = 'yes, after strengthening (missed first)'
+    if note.startswith('NOT REPORTED ANY MORE'):
+        caught = 'no, on purpose: not a violation of the property as stated'
     rows.append(f"| {m.get('id', d.split('/')[-1])} | {what} | {caught} | {by} | {det.get('first_violation_plan_index','')} |")
 table = ["| id | change | caught by quick tier | violation class | first plan index |", "|---|---|---|---|---|"] + rows
 sens = []
@@ -30,7 +32,10 @@ if os.path.exists(rp):
         if os.path.exists(dp):
             ls = open(dp).read().split('\n')
             desc = ls[1].lstrip('# ') if len(ls) > 1 else ''
-        sens.append(f"| {mid} | {desc} | {'yes' if ex and ex.group(1)=='1' else '**no** (exit ' + (ex.group(1) if ex else '?') + ')'} | {cls.group(1) if cls else ''} |")
+        verdict = 'yes' if ex and ex.group(1)=='1' else '**no** (exit ' + (ex.group(1) if ex else '?') + ')'
+        if desc.startswith('[NOT a violation') and ex and ex.group(1)=='0':
+            verdict = 'silent, as it should be'
+        sens.append(f"| {mid} | {desc} | {verdict} | {cls.group(1) if cls else ''} |")
 stable = ["| id | edit | caught by quick tier | violation class |", "|---|---|---|---|"] + sens
 p = '/verif/DESIGN.md'
 s = open(p).read()
